@@ -237,7 +237,8 @@ Proof.
   match goal with X : mopt_eqb _ (m_construct _ (k_a1 c)) _ = true |- _ => destruct (construct_link _ _ _ Hs N1 X) as [C1 R1] end.
   unfold spec_ok. rewrite C0, C1. simpl andb.
   repeat match goal with X : obs_eqb _ _ = true |- _ => apply obs_eqb_same_rows in X; rewrite X; clear X end.
-  match goal with X : k_unchanged c = true |- _ => rewrite X end. rewrite !andb_true_r.
+  match goal with X : k_unchanged c = true |- _ => rewrite X end.
+  match goal with X : list_eqb Bool.eqb _ _ = true |- _ => rewrite X end. rewrite !andb_true_r.
   destruct (m_construct (k_sch c) (k_a0 c)) as [t0|] eqn:E0; destruct (m_construct (k_sch c) (k_a1 c)) as [t1|] eqn:E1.
   - destruct R0 as [R0 I0]. destruct R1 as [R1 I1]. rewrite R0, R1.
     eapply steps_link; [exact I0|exact I1|apply Hg; reflexivity|assumption].
